@@ -239,7 +239,7 @@ pub fn run(ctx: &Ctx) -> Report {
     rep.assume("same domain exclusion O1 as C08; the trace is compared after sorting children and replacing routes by ids because its order follows hash-map iteration");
     let cases = tree_cases(ctx.tier.pick(3, 4) as usize, true);
     let n = cases.len() as u64;
-    rep.add(run_enum(ctx, "tree-limit-level-exhaustive", n, true, &format!("{n} (tree, limit, level / call sequence) combinations over subsets of the 15 curated patterns {:?}", CURATED), |i| Some(cases[i as usize].clone()), check_tree, &[]));
+    rep.add(run_enum(ctx, "tree-limit-level-exhaustive", n, true, &format!("{n} (tree, limit, level / call sequence) combinations over subsets of the 16 curated patterns {:?}", CURATED), |i| Some(cases[i as usize].clone()), check_tree, &[]));
     if rep.has_violation() {
         return rep;
     }
